@@ -52,6 +52,7 @@ ASSUMPTIONS = [
 ]
 
 METHODS = ["lebedev", "spherical", "maxdet", "ahrens_beylkin"]
+PFX = {"lebedev": "LEBEDEV", "spherical": "SPHERICAL", "maxdet": "MAX_DET", "ahrens_beylkin": "AHRENS_BEYLKIN"}
 SCALED = {"lebedev": 1, "spherical": 1, "maxdet": 0, "ahrens_beylkin": 0}
 DIRS = {"lebedev": "lebedev", "spherical": "spherical_design", "maxdet": "maxdet", "ahrens_beylkin": "ahrens_beylkin"}
 CACHES = {"lebedev": "LEBEDEV_CACHE", "spherical": "SPHERICAL_CACHE", "maxdet": "MAX_DET_CACHE", "ahrens_beylkin": "AHRENS_BEYLKIN_CACHE"}
@@ -343,6 +344,33 @@ def oracle(ctx: Ctx, budget: str):
         if not (np.array_equal(a.points, ref_at_p) and np.array_equal(a.weights, ref_at_w)):
             ctx.fail("oracle", "atomgrid.AtomGrid:angular-cache", f"AtomGrid built from {m} degree {d} differs from the one built in a pristine process state",
                      witness={"method": m, "degree": d}, snippet=SNIP.format(m=m, d=d))
+        _clear(ang)
+    # cross-method histories: the same degree requested under different methods, in both orders, with
+    # the cache on (a cache keyed too coarsely, or shared between methods, shows up here)
+    tabs = {m: set(int(k) for k in getattr(ang, PFX[m] + "_DEGREES")) for m in METHODS}
+    for _ in range(reps):
+        ma, mb = ctx.rng.sample(METHODS, 2)
+        shared = sorted(d for d in tabs[ma] & tabs[mb] if d <= 41)
+        if not shared:
+            continue
+        d = ctx.rng.choice(shared)
+        _clear(ang)
+        seq = [(ma, d, True), (mb, d, ctx.rng.random() < 0.7), (ma, d, ctx.rng.random() < 0.5)]
+        ctx.count(["oracle-cross-method", ma, mb, d], nontrivial=True, tag="oracle:cross-method")
+        for (m, dd, cache) in seq:
+            g = ang.AngularGrid(degree=dd, method=m, cache=cache)
+            deg, sp, sw = _shipped(ang, m, dd)
+            if g.points.shape != sp.shape or not (np.array_equal(g.points, sp) and np.array_equal(g.weights, sw)):
+                ctx.fail("oracle", "angular.AngularGrid:cache:cross-method",
+                         f"AngularGrid(degree={dd}, method={m!r}, cache={cache}) built after {ma!r} degree {d} was cached has {len(g.points)} points / data that differ from the shipped file ({len(sp)} points)",
+                         witness={"sequence": [list(x) for x in seq]},
+                         snippet=("import warnings; warnings.filterwarnings('ignore')\nimport numpy as np\nfrom grid import angular as ang\nfrom grid.angular import AngularGrid\n"
+                                  "for c in ('LEBEDEV_CACHE','SPHERICAL_CACHE','MAX_DET_CACHE','AHRENS_BEYLKIN_CACHE'): getattr(ang, c).clear()\n"
+                                  f"AngularGrid(degree={d}, method={ma!r})\nref = AngularGrid(degree={d}, method={mb!r}, cache=False)\n"
+                                  "for c in ('LEBEDEV_CACHE','SPHERICAL_CACHE','MAX_DET_CACHE','AHRENS_BEYLKIN_CACHE'): getattr(ang, c).clear()\n"
+                                  f"g0 = AngularGrid(degree={d}, method={mb!r}, cache=False)\nAngularGrid(degree={d}, method={ma!r})\ng = AngularGrid(degree={d}, method={mb!r})\n"
+                                  "assert g.points.shape == g0.points.shape and np.array_equal(g.points, g0.points) and np.array_equal(g.weights, g0.weights), 'grid depends on what was cached before under another method'\n"))
+                break
         _clear(ang)
     # b: order independence once fixed
     for _ in range(reps * 3):
